@@ -706,6 +706,10 @@ func (fc *FnCtx) execCall(st *State, in ssa.Instruction, c *ssa.CallCommon, resT
 			fc.applyFrame(st, &Frame{top: true})
 		}
 		res = fc.freshVal(st, resT, "call_"+sanitize(calleeShort(c)))
+		if c.IsInvoke() && c.Method.Name() == "GetObjectKind" && res.T != "" {
+			fc.useTrusted("runtime.Object.GetObjectKind() returns a non-nil ObjectKind (every API type returns its embedded TypeMeta, Unstructured returns itself)")
+			fc.q.assert(implies(st.reach, not(eq("(itag "+res.T+")", "0"))))
+		}
 		if callee != nil && len(callee.Blocks) > 0 {
 			fc.g.uncontracted[key] = true
 		}
